@@ -415,6 +415,22 @@ struct HaEngine : run::Engine {
 			}
 			for (int i = 0; i < neps * 2; i++) p.ops.push_back({"DELIVER", {(int64_t)g.below(8), 0}});
 			for (int i = 0; i < neps + 2; i++) p.ops.push_back({"RUN", {}});
+			// a third of these point the live service at its (TCP) endpoints again and let them push other configurations
+			if (g.chance(1, 3)) {
+				p.cfg["transport"] = 0; p.cfg["repoint"] = 1;
+				for (int e = 0; e < neps; e++) p.ops.push_back({"REPLY", {0, 0, (int64_t)g.below(1 << 30)}});
+				for (int i = 0; i < neps * 2; i++) p.ops.push_back({"DELIVER", {(int64_t)g.below(8), 0}});
+				for (int i = 0; i < neps + 3; i++) p.ops.push_back({"RUN", {}});
+				p.ops.push_back({"REPOINT", {}});
+				p.ops.push_back({"ADD", {0, 0}});
+				p.ops.push_back({"RUN", {}});
+				p.ops.push_back({"RUN", {}});
+				for (int e = 0; e < neps; e++) p.ops.push_back({"SRVREAD", {e}});
+				for (int e = 0; e < neps; e++) p.ops.push_back({"REPLY", {0, 0, (int64_t)g.below(1 << 30)}});
+				for (int e = 0; e < neps; e++) p.ops.push_back({"PUSHCONF", {e, (int64_t)g.below(6), (int64_t)g.below(6), (int64_t)g.below(6), 0, (int64_t)g.below(1 << 30)}});
+				for (int i = 0; i < neps * 2; i++) p.ops.push_back({"DELIVER", {(int64_t)g.below(8), 0}});
+				for (int i = 0; i < neps + 2; i++) p.ops.push_back({"RUN", {}});
+			}
 			gen_async_ops(g, p, nops / 3, true, neps);
 			return p;
 		}
